@@ -14,7 +14,7 @@ package casket
 //@ define inOuter() bool = 1 <= #i1 && #i1 <= len(directives) && lastDir <= #i1 - 1 && dir == directives[#i1 - 1]
 
 //@ func executeDirectives
-//@   requires lastDir == -1
+//@   requires lastDir == -1 && inst != nil
 //@   modifies ghost:lastDir, MV:map[int]map[string]interface{}, MD:map[int]map[string]interface{}, MV:map[string]interface{}, MD:map[string]interface{}
 //@   requires forall(k, 0, len(directives), idx(directives, directives[k]) == k)
 //@   at call dynamic#1 assert [ordered] idx(directives, dir) >= lastDir
